@@ -88,6 +88,104 @@ pub fn check_case(rep: &mut Report, model: &mut Model, kc: &KeyCtx, p: &[u8], st
     true
 }
 
+/// sizes of the compressed blocks of a compression-layer stream (from its sizes table)
+fn comp_sizes(comp: &[u8]) -> Option<Vec<usize>> {
+    if comp.len() < 4 { return None; }
+    let pos = comp.len() - 4;
+    let len = u32::from_le_bytes(comp[pos..].try_into().ok()?) as usize;
+    if len > pos || len < 12 { return None; }
+    let t = &comp[pos - len..pos];
+    let n = u64::from_le_bytes(t[..8].try_into().ok()?) as usize;
+    if t.len() != 8 + 4 * n + 4 { return None; }
+    Some((0..n).map(|i| u32::from_le_bytes(t[8 + 4 * i..12 + 4 * i].try_into().unwrap()) as usize).collect())
+}
+
+/// A plaintext of `nblocks` full compression blocks + a tail whose FIRST compressed block ends
+/// `residue` bytes after an encryption chunk boundary: zeros (which compress to nothing) followed by
+/// incompressible bytes (stored: one compressed byte per byte), the number of zeros tuned until the
+/// size from the sizes table has the wanted residue.  Incompressible blocks end with the empty last
+/// meta-block as a byte of its own, which a decoder does not need to produce the block's last byte:
+/// this is the alignment at which "the inner layer is at the start of the next block" is false.
+fn aligned_plaintext(rng: &mut Rng, residue: usize, nblocks: usize) -> Option<Vec<u8>> {
+    let (b, c) = (CONSTS.block, CONSTS.chunk);
+    let tail = rng.bytes(b / 2 + 3, 3);
+    let rest: Vec<u8> = (1..nblocks).flat_map(|_| rng.bytes(b, 3)).collect();
+    let random = rng.bytes(b, 3);
+    let mut z = if b > 2 * c { c + 3 } else { b / 4 };
+    for _ in 0..12 {
+        let mut p = vec![0u8; z];
+        p.extend_from_slice(&random[z..]);
+        p.extend_from_slice(&rest);
+        p.extend_from_slice(&tail);
+        let comp = real_compress(&p, &[]);
+        let s0 = *comp_sizes(&comp)?.first()?;
+        if s0 % c == residue % c { return Some(p); }
+        // one zero more = one stored byte less
+        let d = (s0 + c - residue % c) % c;
+        z = if z + d < b { z + d } else if z >= c - d { z - (c - d) } else { return None };
+    }
+    None
+}
+
+/// read up to the end of block `k` (reads are clipped there by the layer), then go into the next block
+/// with `seek` (Start / Current) and read: everything must be what a cursor over `p` gives
+fn boundary_case(rep: &mut Report, kc: &KeyCtx, p: &[u8], stack: u8, k: usize, e: usize, mode: u8, what: &str) -> bool {
+    use std::io::{Read, Seek, SeekFrom};
+    let mut r2 = Rng::new(7);
+    let bytes = build_stream(p, stack, kc, 0, &mut r2);
+    let case = || json!({"stack": stack, "junk": 0, "p": hx(p), "key": hx(&kc.key), "nonce": hx(&kc.nonce), "header": hx(&kc.header), "cfg": kc.cfg.to_json(),
+        "history": [], "boundary": {"k": k, "e": e, "mode": mode}});
+    rep.eval(fnv(&[p, &[stack, k as u8, e as u8, mode]].concat()), true);
+    rep.count(&format!("boundary:{what}"));
+    let end = (k + 1) * CONSTS.block;
+    let fail = |rep: &mut Report, msg: String| { rep.violation("oracle", "C11/cursor", json!({"what":"cursor-mismatch","stack":stack,"op":"boundary"}), &format!("stack {stack}, plaintext {} bytes, {what}: {msg}", p.len()), case()); false };
+    let mut s = match open_stack(bytes, stack, kc, 0) { Ok(s) => s, Err(e) => return fail(rep, format!("does not initialise: {e}")) };
+    let start = end.saturating_sub(10);
+    if s.seek(SeekFrom::Start(start as u64)).ok() != Some(start as u64) { return fail(rep, format!("seek(Start({start})) failed")); }
+    let mut pos = start;
+    let mut buf = vec![0u8; 1 << 16];
+    while pos < end {
+        match s.read(&mut buf[..(end - pos).min(1 << 16)]) {
+            Ok(0) => return fail(rep, format!("read at {pos} returned nothing before the end of the block ({end})")),
+            Ok(n) => { if buf[..n] != p[pos..pos + n] { return fail(rep, format!("read at {pos} returned wrong bytes")); } pos += n; }
+            Err(e) => return fail(rep, format!("read at {pos} failed: {}", io_err_class(&e))),
+        }
+    }
+    let target = if mode == 2 { end } else { (end + e).min(p.len()) };
+    if mode != 2 {
+        let got = if mode == 1 { s.seek(SeekFrom::Current(e as i64)) } else { s.seek(SeekFrom::Start(target as u64)) };
+        if got.as_ref().ok() != Some(&(target as u64)) { return fail(rep, format!("seek into the next block at {target} answered {:?}", got.map_err(|e| io_err_class(&e)))); }
+    }
+    let want = &p[target..(target + 200).min(p.len())];
+    let mut out = vec![];
+    while out.len() < want.len() {
+        match s.read(&mut buf[..want.len() - out.len()]) {
+            Ok(0) => break,
+            Ok(n) => out.extend_from_slice(&buf[..n]),
+            Err(e) => return fail(rep, format!("read at {} in the next block failed: {}", target + out.len(), io_err_class(&e))),
+        }
+    }
+    if out != want { return fail(rep, format!("{} bytes read at {target} in the next block differ from the plaintext ({} expected)", out.len(), want.len())); }
+    true
+}
+
+/// the alignment cases: compressed block ending 0, 1, 2, chunk-1 bytes after a chunk boundary
+fn aligned_cases(rep: &mut Report, kc: &KeyCtx, rng: &mut Rng) {
+    for residue in [1usize, 2, 0, CONSTS.chunk - 1] {
+        match aligned_plaintext(rng, residue, 2) {
+            Some(p) => {
+                for stack in [L_COMP | L_ENC, L_COMP] {
+                    // into the next block by seek(Start), by seek(Current), or by simply reading on
+                    for (e, mode) in [(0usize, 0u8), (5, 0), (5, 1), (CONSTS.block - 1, 0), (0, 2)] {
+                        if !boundary_case(rep, kc, &p, stack, 0, e, mode, &format!("block end {residue} after a chunk boundary")) { return; }
+                    }
+                }
+            }
+            None => rep.count("boundary:alignment-not-reached"),
+        }
+    }
+}
+
 /// (compressed block, plaintext) pairs of a compressed stream, decoded with the brotli crate directly
 fn comp_blocks(comp: &[u8]) -> Option<Vec<Value>> {
     use std::io::Read;
@@ -121,6 +219,11 @@ pub fn run(ctx: &Ctx) -> Report {
         let c = if c.get("case").is_some() { &c["case"] } else { c };
         let p = unhx(&c["p"]);
         let hist: Vec<HOp> = c["history"].as_array().unwrap().iter().map(HOp::from_json).collect();
+        if let Some(bd) = c.get("boundary") {
+            let kc2 = KeyCtx::from_json(c);
+            boundary_case(&mut rep, &kc2, &p, c["stack"].as_u64().unwrap() as u8, bd["k"].as_u64().unwrap_or(0) as usize, bd["e"].as_u64().unwrap_or(0) as usize, bd["mode"].as_u64().unwrap_or(0) as u8, "replay");
+            return rep;
+        }
         let mut key = [0u8; 32]; key.copy_from_slice(&unhx(&c["key"]));
         let mut nonce = [0u8; 8]; nonce.copy_from_slice(&unhx(&c["nonce"]));
         let kc2 = KeyCtx { cfg: Cfg::from_json(&c["cfg"]), header: unhx(&c["header"]), key, nonce };
@@ -144,6 +247,8 @@ pub fn run(ctx: &Ctx) -> Report {
         let p = rng.bytes(len, 2);
         check_case(&mut rep, &mut model, &kc, &p, L_COMP, 0, &mut rng, 0, Some(&h), false);
     }
+    aligned_cases(&mut rep, &kc, &mut rng);
+    if rep.full() { return rep; }
     if CONSTS.scaled {
         // every plaintext length 0..=3*chunk+20 (encrypt) and 0..=3*block+5 (compress, both)
         for len in 0..=(3 * CONSTS.chunk + 20) {
